@@ -339,7 +339,7 @@ PROPS["C16"] = {
     "level": "other",
     "extra": [{"name": "C16/bounded[port pairs exhaustive; 300 random diagrams]", "kind": "bounded", "tiers": ("quick",), "cmd": ["/venv/bin/python", "native/c16_bounded.py"]},
               {"name": "C16/bounded[100000 random diagrams]", "kind": "bounded", "tiers": ("thorough",), "timeout": 3000, "cmd": ["/venv/bin/python", "native/c16_bounded.py", "--thorough"]}],
-    "assumptions": ["DiagramExecutor.execute (a 100-line double loop over nested dicts with a ready-set scheduler) is proved on eight FIXED DIAGRAM SHAPES only (two-module chains in "
+    "assumptions": ["DiagramExecutor.execute (a 100-line double loop over nested dicts with a ready-set scheduler) is proved on ten FIXED DIAGRAM SHAPES only (a three-module chain declared backwards, a diamond whose join is declared first, two-module chains in "
                     "both declaration orders, with and without an external value on the wired port, wired after the executor was built; self-loop; two-cycle; doubly sourced "
                     "port) for ARBITRARY port labels and handler outputs: on a fixed shape no loop is cut, so run-once / feeder-first / refusal are discharged for all values. "
                     "For general diagrams its clauses (label safety of every delivered value, run once and after all feeders, unschedulable diagrams raise) are checked by the "
@@ -352,7 +352,7 @@ PROPS["C16"] = {
                    "connect appends exactly one wire iff both ports exist and the flow is acceptable and leaves the wire list unchanged otherwise, add_module, "
                    "required_capabilities (inclusion), _coerce_output (result labelled exactly as the port; rejected only when mislabelled), _coerce_input, register_module. "
                    "Bounded part: exhaustive port pairs; seeded random diagrams with cycles/fan-in/missing sources/handlers and raw, labelled and mislabelled handler outputs.",
-    "level_text": "Leaf functions proved for all inputs; the scheduler proved on eight fixed diagram shapes (all labels and values) and bounded for general diagrams.",
+    "level_text": "Leaf functions proved for all inputs; the scheduler proved on ten fixed diagram shapes (all labels and values) and bounded for general diagrams.",
     "level_note": "execute under contract per diagram shape only; engine and z3 trusted.",
 }
 
